@@ -24,8 +24,8 @@ RULE = ("cases = curated + random-grammar assignments whose output format has >=
         "distinct by (assignment, formats, sizes, inputs, capacity, executor)")
 
 PLAN = {
-    "quick": dict(shards=12, fmt=8, inp=2, rnd=1300, draws=2, jit_every=3),
-    "thorough": dict(shards=16, fmt=60, inp=3, rnd=20000, draws=4, jit_every=2),
+    "quick": dict(shards=12, fmt=8, inp=2, rnd=1300, draws=2, jit_every=3, lattice=480),
+    "thorough": dict(shards=16, fmt=60, inp=3, rnd=20000, draws=4, jit_every=2, lattice=16000),
 }
 
 
@@ -141,6 +141,21 @@ def shard(rec, tier, index, n_shards):
         for _ in range(plan["draws"]):
             formats = sparse_output_formats(rng, orders, target[1])
             do(engine.build_case(rng, target, tree, formats, origin="random"))
+    for case in engine.lattice_cases(rng, plan["lattice"] // n_shards, 3):
+        if "s" not in case.formats[case.target[1]]:
+            continue
+        rec.count("lattice_cases")
+        do(case)
+    # every output format of a few simple shapes (engine.output_exhaustive_cases)
+    for case in engine.output_exhaustive_cases(rng, index, n_shards, draws=3 if tier == "quick" else 8):
+        if "s" not in case.formats[case.target[1]]:
+            continue
+        rec.count("every_output_format_cases")
+        do(case)
+    # bounded-exhaustive small shapes (engine.small_shapes): every tree with <= 5 leaves, all operands compressed
+    for case in engine.small_shape_cases(rng, index, n_shards, draws=4):
+        rec.count("small_shape_cases")
+        do(case)
 
 
 def main(tier):
